@@ -2,6 +2,7 @@
 // embedded instantiation; the including TU decides which vector they sit on).
 #pragma once
 #include "vpbt.h"
+#include <algorithm>
 #include <map>
 #include <set>
 #include <stdexcept>
@@ -37,13 +38,31 @@ template <> struct Vals<std::string>
 };
 
 // FM = flat_map<K,M>, FS = flat_set<K>
-template <class FM, class FS, class K, class M> void flat_target(Src &s, Case &c, const char *what)
+// ordering predicates for the Compare parameter
+struct NoCase
+{
+    bool operator()(const std::string &a, const std::string &b) const
+    {
+        size_t n = std::min(a.size(), b.size());
+        for (size_t i = 0; i < n; i++)
+        {
+            int x = a[i] >= 'A' && a[i] <= 'Z' ? a[i] + 32 : a[i], y = b[i] >= 'A' && b[i] <= 'Z' ? b[i] + 32 : b[i];
+            if (x != y)
+                return x < y;
+        }
+        return a.size() < b.size();
+    }
+};
+
+// Cmp orders the reference map, SCmp the reference set. flat_map finds keys with operator== (a linear search, by design), so
+// it is only given orders under which equivalent keys are equal keys; flat_set uses its Compare for everything.
+template <class FM, class FS, class K, class M, class Cmp = std::less<K>, class SCmp = Cmp> void flat_target(Src &s, Case &c, const char *what)
 {
     const int NK = 8;
     FM fm;
     FS fs;
-    std::map<K, M> rm;
-    std::set<K> rs;
+    std::map<K, M, Cmp> rm;
+    std::set<K, SCmp> rs;
     bool dup = false, miss = false;
     int nops = (int)s.range(0, 40);
     c.log("%s: ", what);
@@ -63,7 +82,7 @@ template <class FM, class FS, class K, class M> void flat_target(Src &s, Case &c
             VP_CHECK((it != fm.end()) == (rm.find(k) != rm.end()), "map_find", "%s: flat_map find(%s) %s, std::map differs", op,
                      Keys<K>::show(k).c_str(), it != fm.end() ? "hit" : "miss");
             if (it != fm.end())
-                VP_CHECK(it->first == k && it->second == rm.at(k), "map_find_value", "%s: find(%s) points at the wrong entry", op,
+                VP_CHECK(it->first == rm.find(k)->first && it->second == rm.at(k), "map_find_value", "%s: find(%s) points at the wrong entry", op,
                          Keys<K>::show(k).c_str());
             {
                 // const overloads of the lookups are functions of their own
@@ -72,7 +91,7 @@ template <class FM, class FS, class K, class M> void flat_target(Src &s, Case &c
                 VP_CHECK((cit != cfm.end()) == (rm.find(k) != rm.end()), "map_const_find", "%s: const find(%s) %s, std::map differs", op, Keys<K>::show(k).c_str(),
                          cit != cfm.end() ? "hit" : "miss");
                 if (cit != cfm.end())
-                    VP_CHECK(cit->first == k && cit->second == rm.at(k), "map_const_find_value", "%s: const find(%s) points at the wrong entry", op,
+                    VP_CHECK(cit->first == rm.find(k)->first && cit->second == rm.at(k), "map_const_find_value", "%s: const find(%s) points at the wrong entry", op,
                              Keys<K>::show(k).c_str());
                 VP_CHECK(cfm.count(k) == rm.count(k) && cfm.size() == rm.size() && cfm.empty() == rm.empty(), "map_const_count", "%s: const count/size/empty differ from std::map",
                          op);
@@ -213,7 +232,7 @@ template <class FM, class FS, class K, class M> void flat_target(Src &s, Case &c
                 C02_E(15), C02_E(16), C02_E(17), C02_E(18), C02_E(19), C02_E(20), C02_E(21), C02_E(22), C02_E(23)
                 c.log("[24 entries] ");
                 fm = FM{C02_E24};
-                rm = std::map<K, M>{C02_E24};
+                rm = std::map<K, M, Cmp>{C02_E24};
 #undef C02_E24
 #undef C02_E
                 dup = true;
@@ -221,7 +240,7 @@ template <class FM, class FS, class K, class M> void flat_target(Src &s, Case &c
                 break;
             }
             fm = FM{{k, v}, {k2, Vals<M>::make(0)}};
-            rm = std::map<K, M>{{k, v}, {k2, Vals<M>::make(0)}};
+            rm = std::map<K, M, Cmp>{{k, v}, {k2, Vals<M>::make(0)}};
             if (ki == k2i)
             {
                 dup = true;
